@@ -272,7 +272,6 @@ impl<P: Payload> Sim<P> {
     pub fn with_capacity(n: usize) -> Self {
         Sim { arena: Arena::with_capacity(n), ids: Vec::new(), toks: HashMap::new(), issued: Vec::new() }
     }
-
     pub fn id(&self, slot: usize) -> NodeId {
         self.ids[slot - 1]
     }
@@ -473,6 +472,42 @@ impl<P: Payload> Sim<P> {
 }
 
 impl<P: Payload + Clone> Sim<P> {
+    /// the different ways an empty arena can come to be (C13: behaviour is a function of the call history alone)
+    pub fn origin(k: u64) -> Self {
+        let arena: Arena<P> = match k % 8 {
+            6 => Arena::with_capacity(600),
+            7 => {
+                let mut a: Arena<P> = Arena::new();
+                a.new_node(P::make(0));
+                a.clear();
+                a.reserve(1100);
+                a
+            }
+            0 => Arena::new(),
+            1 => Arena::default(),
+            2 => Arena::with_capacity(0),
+            3 => {
+                let e: Arena<P> = Arena::new();
+                #[allow(clippy::redundant_clone)]
+                let c = e.clone();
+                c
+            }
+            4 => {
+                let mut a: Arena<P> = Arena::with_capacity(5);
+                let x = a.new_node(P::make(0));
+                x.append_value(P::make(0), &mut a);
+                a.clear();
+                a
+            }
+            _ => {
+                let mut a: Arena<P> = Arena::new();
+                a.reserve(3);
+                a
+            }
+        };
+        Sim { arena, ids: Vec::new(), toks: HashMap::new(), issued: Vec::new() }
+    }
+
     pub fn fork(&self) -> Self {
         // a clone has no spare capacity; the copy gets the original's slack back, so that behaviour that depends on
         // `len < capacity` is the same in the copy
@@ -545,7 +580,7 @@ pub struct Obs {
     pub prev_e: [i64; 2],
 }
 
-impl<P: Payload> Sim<P> {
+impl<P: Payload + Clone> Sim<P> {
     fn edge(&self, e: Option<NodeEdge>) -> [i64; 2] {
         match e {
             None => [0, 0],
@@ -591,7 +626,7 @@ impl<P: Payload> Sim<P> {
         let a = &self.arena;
         let id = self.id(slot);
         let mut out = Vec::new();
-        fn chk<X: PartialEq + std::fmt::Debug + Copy, I: Iterator<Item = X>>(name: &str, mk: &dyn Fn() -> I, limit: usize, out: &mut Vec<String>) {
+        fn chk<X: PartialEq + std::fmt::Debug + Copy, I: Iterator<Item = X> + Clone>(name: &str, mk: &dyn Fn() -> I, limit: usize, out: &mut Vec<String>) {
             let v: Vec<X> = mk().take(limit).collect();
             if v.len() >= limit {
                 return;
@@ -616,6 +651,18 @@ impl<P: Payload> Sim<P> {
             });
             if f != v {
                 out.push(format!("{}: fold()/for_each() visits {:?} but next() yields {:?}", name, f, v));
+            }
+            for k in [0usize, 1, 2] {
+                // a clone of a partially consumed iterator continues where the original is
+                let mut it = mk();
+                for _ in 0..k {
+                    it.next();
+                }
+                let c: Vec<X> = it.clone().take(limit).collect();
+                let o: Vec<X> = it.take(limit).collect();
+                if c != o || o[..] != v[k.min(v.len())..] {
+                    out.push(format!("{}: after {} items a clone() yields {:?}, the original {:?}, a fresh iterator {:?}", name, k, c, o, v));
+                }
             }
             for k in [0usize, 1, 2] {
                 let mut it = mk();
@@ -697,6 +744,13 @@ impl<P: Payload> Sim<P> {
             v
         }));
         let rev: Vec<NodeId> = with!(|it| rest(Iterator::rev(it), lim));
+        // a clone taken after the pulls yields the same rest, from both ends (reported through `folded` / `rev`)
+        fn cl<I: DoubleEndedIterator<Item = NodeId> + Clone>(it: I, lim: usize) -> (Vec<NodeId>, Vec<NodeId>) {
+            (it.clone().take(lim).collect(), it.clone().rev().take(lim).collect())
+        }
+        let (cf, cb): (Vec<NodeId>, Vec<NodeId>) = with!(|it| cl(it, lim));
+        let folded = if cf != r { cf } else { folded };
+        let rev = if cb.iter().rev().copied().collect::<Vec<_>>() != r { cb } else { rev };
         let m = |v: Vec<NodeId>| -> Vec<i64> { v.into_iter().map(|x| self.link(Some(x))).collect() };
         (m(r), count, self.link(last), m(folded), m(rev))
     }
